@@ -56,31 +56,112 @@ def make_processor(p, fired):
     return textxerror_wrap(proc) if p.get("wrap") else proc
 
 
+def peg_info(case, mm, out):
+    """Dump of the live parser model (tools/pegdump.py) and the regex oracle table for the text the
+    parser of one file holds: inputs of the Coq interpreter model (Model/Peg.v)."""
+    if case.get("peg_text") is None:
+        return
+    tools = os.path.dirname(os.path.dirname(os.path.abspath(__file__)))
+    if tools not in sys.path:
+        sys.path.insert(0, tools)
+    import pegdump
+    try:
+        dump = pegdump.dump_metamodel(mm)
+        out["peg_dump"] = dump.to_json()
+        out["peg_table"] = dump.oracle_table(case["peg_text"])
+        if case.get("want_mm"):
+            import mmdump
+            mi = mmdump.dump_mm(mm, dump)
+            out["mm_info"] = mi
+            out["peg_gtable"] = mmdump.group_table(dump, mi, case["peg_text"])
+            out["mm_auto"] = bool(mm.auto_init_attributes)
+            out["mm_use_grp"] = bool(mm.use_regexp_group)
+    except pegdump.Unsupported as e:
+        out["peg_unsupported"] = str(e)
+
+
+class Def:
+    def __init__(self, parent=None, name=None, ver=None, val=None):
+        self.parent, self.name, self.ver, self.val = parent, name, ver, val
+
+
+class Box:
+    def __init__(self, parent=None, name=None, items=None):
+        self.parent, self.name, self.items = parent, name, items
+
+
+COMMON_RULES = ["Model", "Import", "Def", "Use", "Uses", "Rr", "Box"]
+
+
+def make_metamodel(case, d):
+    kw = {}
+    if case.get("builtin"):
+        # the builtin model is loaded beforehand with a metamodel of its own (same grammar)
+        from textx.scoping import ModelRepository
+        mm0 = metamodel_from_str(case["grammar"])
+        mm0.register_scope_providers({"*.*": Provider()})
+        path = os.path.join(d, case["builtin"]["name"])
+        with open(path, "w", encoding="utf-8", newline="") as fh:
+            fh.write(case["builtin"]["raw"])
+        repo = ModelRepository()
+        repo.add_model(mm0.model_from_file(path))
+        kw["builtin_models"] = repo
+    if case.get("user_classes"):
+        kw["classes"] = [Def, Box]
+    mm = metamodel_from_str(case["grammar"], **kw)
+    mm.register_scope_providers({"*.*": Provider()})
+    return mm
+
+
+def dir_ok(case, fn, d):
+    """the reported file name is the path of the loaded file (or, for a string load with an explicit
+    file_name, that name, possibly made absolute)"""
+    if fn is None or os.path.dirname(fn) == "":
+        return True
+    if case["string"] and case.get("str_file_name"):
+        return fn == os.path.abspath(case["str_file_name"])
+    return os.path.realpath(os.path.dirname(fn)) == os.path.realpath(d)
+
+
 def run_case(case):
     d = tempfile.mkdtemp(prefix="loc_")
     try:
-        mm = metamodel_from_str(case["grammar"])
-        mm.register_scope_providers({"*.*": Provider()})
         fired = []
+        try:
+            mm = make_metamodel(case, d)
+        except Exception as e:  # noqa
+            return {"status": "setup-failed", "cls": type(e).__name__, "message": str(e), "fired": fired}
+        extra = {}
+        peg_info(case, mm, extra)
+        procs = {}
         if case.get("proc"):
-            mm.register_obj_processors({case["proc"]["rule"]: make_processor(case["proc"], fired)})
+            if case.get("benign"):
+                for rule in COMMON_RULES:
+                    procs[rule] = lambda o: None
+            procs[case["proc"]["rule"]] = make_processor(case["proc"], fired)
+            mm.register_obj_processors(procs)
         for f in case["files"]:
             with open(os.path.join(d, f["name"]), "w", encoding="utf-8", newline="") as fh:
                 fh.write(f["raw"])
         try:
             if case["string"]:
-                mm.model_from_str(case["files"][0]["raw"])
+                if case.get("str_file_name"):
+                    mm.model_from_str(case["files"][0]["raw"], file_name=case["str_file_name"])
+                else:
+                    mm.model_from_str(case["files"][0]["raw"])
             else:
                 mm.model_from_file(os.path.join(d, case["files"][0]["name"]))
-            return {"status": "ok", "fired": fired}
+            res = {"status": "ok", "fired": fired}
         except TextXError as e:
             fn = e.filename
-            return {"status": "textx", "cls": type(e).__name__, "message": e.message, "line": e.line, "col": e.col,
-                    "nchar": e.nchar, "filename": None if fn is None else os.path.basename(fn),
-                    "dir_ok": fn is None or os.path.dirname(fn) == "" or os.path.realpath(os.path.dirname(fn)) == os.path.realpath(d), "fired": fired,
-                    "str": str(e).replace(d + os.sep, "")}
+            res = {"status": "textx", "cls": type(e).__name__, "message": e.message, "line": e.line, "col": e.col,
+                   "nchar": e.nchar, "filename": None if fn is None else os.path.basename(fn),
+                   "dir_ok": dir_ok(case, fn, d),
+                   "fired": fired, "str": str(e).replace(d + os.sep, "")}
         except Exception as e:  # noqa
-            return {"status": "exc", "cls": type(e).__name__, "message": str(e), "fired": fired}
+            res = {"status": "exc", "cls": type(e).__name__, "message": str(e), "fired": fired}
+        res.update(extra)
+        return res
     finally:
         shutil.rmtree(d, ignore_errors=True)
 
